@@ -257,33 +257,87 @@ class ExtractArchive(Target):
 
 
 class StageCopyLink(Target):
+    """copy / copyout / link of one reference into a working directory that may already hold what an EARLIER reference of the
+    same component staged under the same name: a symbolic link to another component's file (`:link`) or a plain copy.  The
+    file-system model follows links like the operating system: writing a file through an existing link modifies the link's
+    target, removing a link removes the link."""
     prop = 'C18'
     name = 'StageReference[copy/link]'
     file = D
     qualname = 'StageReference'
-    trusted = ["shutil.copy(src, dir) creates join(dir, basename(src)); shutil.copytree(src, dst) creates dst; os.symlink(src, dst) creates dst"]
+    trusted = ["shutil.copy(src, dir) writes join(dir, basename(src)) THROUGH a symbolic link that is already there; "
+               "shutil.copytree(src, dst) creates dst (fails if it exists); os.symlink(src, dst) creates dst (fails if it exists); "
+               "os.remove / os.unlink remove the link itself; os.path.islink / lexists look at the entry itself"]
+    assumptions = ["working directory: empty, or holding an entry with the reference's base name staged by an earlier reference "
+                   "(a link to another component's file, a link to another component's directory, or a plain file)"]
+    OTHER = '/work/inst/stages/stage0/other/out.txt'
 
     def setup(self, c):
         method = c.one_of('method', ['copy', 'copyout', 'link'])
         src = c.one_of('reference', ['/work/inst/stages/stage0/prod/out.txt', '/work/inst/data/dir', '/work/inst/data/dir/'])
         isdir = c.one_of('isdir', [False, True])
-        c.ghost['created'] = []
+        earlier = c.one_of('staged_earlier_under_the_same_name', ['nothing', 'link-to-a-file-of-another-component', 'plain-file'])
+        g = c.ghost
+        g['created'] = []
+        g['modified'] = []
+        base = os.path.split(src)[1]
+        g['entries'] = {}
+        if earlier != 'nothing' and base:
+            g['entries'][os.path.join(DEST, base)] = ('sym', self.OTHER) if earlier.startswith('link') else ('file', None)
         ref = Obj('dataref', method=method, stringRepresentation='x:%s' % method,
                   resolve=Extern('DataReference.resolve', lambda c, g: src))
-        return State(args=[ref, Obj('workdir', path=DEST), 'graph'], src=src, isdir=isdir)
+        return State(args=[ref, Obj('workdir', path=DEST), 'graph'], src=src, isdir=isdir, earlier=earlier)
 
     def externs(self, c, st):
         g = c.ghost
+        ent = g['entries']
+
+        def write_file(c, s, d):
+            dst = os.path.join(d, os.path.basename(s)) if (d == DEST or d.rstrip('/') == DEST) else d
+            e = ent.get(dst)
+            if e and e[0] == 'sym':
+                g['modified'].append(e[1])             # written through the link: the link's target changes
+            else:
+                ent[dst] = ('file', None)
+                g['created'].append(dst)
+            return dst
+
+        def copytree(c, s, d, **k):
+            if d in ent:
+                c.raise_(FileExistsError, 17, 'File exists: %s' % d)
+            ent[d] = ('dir', None)
+            g['created'].append(d)
+
+        def symlink(c, s, d, *a, **k):
+            if d in ent:
+                c.raise_(FileExistsError, 17, 'File exists: %s' % d)
+            ent[d] = ('sym', s)
+            g['created'].append(d)
+
+        def remove(c, p):
+            if p not in ent:
+                c.raise_(FileNotFoundError, 2, 'No such file: %s' % p)
+            del ent[p]
         return {'os.path.exists': Extern('os.path.exists', lambda c, p: True),
-                'os.path.isdir': Extern('os.path.isdir', lambda c, p: st.isdir),
-                'shutil.copytree': Extern('shutil.copytree', lambda c, s, d, **k: g['created'].append(d)),
-                'shutil.copy': Extern('shutil.copy', lambda c, s, d: g['created'].append(os.path.join(d, os.path.basename(s)))),
-                'os.symlink': Extern('os.symlink', lambda c, s, d: g['created'].append(d))}
+                'os.path.isdir': Extern('os.path.isdir', lambda c, p: st.isdir if p == st.src else (p in ent and ent[p][0] == 'dir')),
+                'os.path.islink': Extern('os.path.islink', lambda c, p: p in ent and ent[p][0] == 'sym'),
+                'os.path.lexists': Extern('os.path.lexists', lambda c, p: p in ent),
+                'os.remove': Extern('os.remove', remove), 'os.unlink': Extern('os.unlink', remove),
+                'shutil.copytree': Extern('shutil.copytree', copytree),
+                'shutil.copy': Extern('shutil.copy', write_file), 'shutil.copy2': Extern('shutil.copy2', write_file),
+                'shutil.copyfile': Extern('shutil.copyfile', write_file),
+                'os.symlink': Extern('os.symlink', symlink)}
 
     def ensures(self, c, st, out):
         g = c.ghost
-        return [('nothing-is-created-outside-the-working-directory', all(inside(DEST, p) for p in g['created'])),
-                ('something-is-staged', out.kind == 'raise' or len(g['created']) == 1)]
+        cl = [('nothing-is-created-outside-the-working-directory', all(inside(DEST, p) for p in g['created'])),
+              ('nothing-outside-the-working-directory-is-modified', all(inside(DEST, p) for p in g['modified']))]
+        if out.kind == 'raise':
+            cl.append(('rejected-with-the-staging-error', out.raised(errors.DataReferenceCouldNotStageError)))
+            cl.append(('a-reference-into-an-empty-working-directory-is-staged', st.earlier != 'nothing'))
+        else:
+            cl.append(('something-is-staged', len(g['created']) + len(g['modified']) == 1))
+        return cl
 
 
 KEYS = ['bin', 'bin/tool', 'data/extra', 'nested/dir', '../outside', 'bin/../../escape', '/abs/path', 'ok/../fine', '..',
